@@ -32,6 +32,7 @@
   outside too; they are not values of the Go types.)
 -/
 import CedarGoProofs.Lemmas.C13Leaves
+import CedarGoProofs.Lemmas.C14SetOrder
 namespace CedarGo
 open JsonModel Scalars
 
@@ -52,12 +53,33 @@ theorem C13_value_json_roundtrip_exact_partial (v : Value) (hr : v.NoReservedKey
     decodeValue (encodeValue v) = .ok v :=
   decodeValue_encodeValue v hw hr
 
-/-- **Stability**: the second encoding equals the first (tree level; Go's member order inside a set is its
-    hash-slot order, which the tree model does not see — see the known finding set-hash-collision-order). -/
+/-- **Stability**: the second encoding equals the first.  This is the tree-level statement; what the tree model does
+    not see is the ORDER in which Go writes the members of a set — see `C13_set_member_order_stable` below (the known
+    finding set-hash-collision-order, now fixed).  `_partial` because of the hypotheses `NoReservedKeys` / `WF` (open
+    findings record-reserved-key, datetime-first-day, ip-v4-mapped-ipv6), not because of the member order. -/
 theorem C13_value_json_stable_partial (v v' : Value) (hr : v.NoReservedKeys) (hw : v.WF)
     (h : decodeValue (encodeValue v) = .ok v') : encodeValue v' = encodeValue v := by
   rw [decodeValue_encodeValue v hw hr] at h
   cases h; rfl
+
+/-- **Stability of the member order of a set** (the part of the byte-level statement the tree model leaves out).
+    `Set.MarshalJSON` writes the members in the order `marshalSetMembers` (slots in probing order, `Set.orderedSlots`);
+    `Set.UnmarshalJSON` gives the decoded members, in the order of the array, to `NewSet` (`buildTable`).  The table built
+    from the members in marshalling order holds every member in its old slot, so the second `Marshal` writes the members
+    in the same order as the first — for every member list, every hash respecting equality (the real one included), every
+    collision pattern, wrap-around at slot 2^64-1 included.
+    (Known finding set-hash-collision-order, fixed: with ascending slot order `NewSet(decimal("-0.0001"), -1)` — both hash
+    to 2^64-1 — flipped its two members on every round trip; regression examples in Properties/C14.lean.) -/
+theorem C13_set_member_order_stable (hash : Value → UInt64) (hr : C11.HashRespectsEq hash) (members : List Value)
+    (hl : members.length < 18446744073709551616) :
+    (buildTable hash (marshalSetMembers hash (buildTable hash members))).Perm (buildTable hash members) ∧
+    marshalSetMembers hash (buildTable hash (marshalSetMembers hash (buildTable hash members))) =
+      marshalSetMembers hash (buildTable hash members) := by
+  have inv := (C11.foldl_insertV_spec hr members [] (C11.inv_nil hash) (by simpa using hl)).1
+  exact ⟨(SetOrder.rebuild inv).2, SetOrder.marshal_stable inv⟩
+
+example : (marshalSetMembers goHash (buildTable goHash [.decimal (-1), .long (-1)]) == [.decimal (-1), .long (-1)]) = true := by
+  decide +kernel
 
 example : (Value.record [("a", .set [.long 1, .str "x", .entity "T" "i"]), ("b", .decimal 15000), ("c", .ip ⟨false, 167772161, 8⟩),
     ("d", .duration 3600001), ("e", .datetime 1700000000000)]).WF := by decide +kernel
